@@ -222,7 +222,9 @@ class Term:
         self.components = []
         for component in components:
             if component not in self.components:
-                self.components.append(component)
+                # Every term owns its components: the type and the encoding of a component are
+                # set per term, e.g. "f" is coded differently in "f" and "g:f"
+                self.components.append(deepcopy(component))
         self.data = None
         self.kind = None
         self.name = ":".join([str(component.name) for component in self.components])
